@@ -65,7 +65,8 @@ EXTENDS Integers, Sequences, FiniteSets, TLC, Json, GrolPrims
 
 CONSTANTS Alphabet,    \* byte values names are built from
           MaxLen,      \* names: every byte sequence over Alphabet of length 0..MaxLen, plain and with ".gr" appended
-          ExtraNames,  \* pinned additional names (set of byte sequences)
+          ExtraNames,  \* pinned additional names (set of byte sequences), asked in every tree
+          SweepNames,  \* further pinned names asked in trees 0 and 1 only (large families, e.g. the 256-byte sweep)
           ImgNames,    \* image names used by ImageSave (set of byte sequences)
           Configs,     \* subset of DOMAIN Flags
           Trees,       \* subset of {0, 1}
@@ -289,7 +290,7 @@ AnyName(P(_)) ==
      /\ \E n \in 1..MaxLen : \E b \in {x \in Alphabet : ShardOf(x) = shard} : \E s \in [1..(n - 1) -> Alphabet] :
           LET nm == <<b>> \o s IN P(nm) \/ P(nm \o Gr)
   \/ /\ shard = 0
-     /\ (P(<<>>) \/ P(Gr) \/ \E s \in ExtraNames : P(s))
+     /\ (P(<<>>) \/ P(Gr) \/ (\E s \in ExtraNames : P(s)) \/ (tree # 2 /\ \E s \in SweepNames : P(s)))
 
 Next ==
   /\ Room                                   \* (first, so that full histories are not expanded name by name)
